@@ -149,9 +149,24 @@ def num_cases(seed, n):
     cases = []
     for i in range(n):
         r = random.Random(f'{seed}/num/{i}')
-        k = r.randrange(11)
+        k = r.randrange(13)
         ent = ' '.join(f'(S:{hx(nm)} {host_num(r, big=(k == 10))})' for nm in ('a', 'b', 'n'))
-        if k <= 4:
+        if k == 11:
+            # numbers that went through a container (item assignment, compound item assignment, dict values) and are then
+            # multiplied / raised / accumulated again and again: the digits must stay bounded on that path too
+            c, kk = r.choice([('l', '0'), ('d', '"k"'), ('l', '1')])
+            init = 'l = [0, 0]' if c == 'l' else 'd = {}'
+            v0 = r.choice(['a', 'b', 'int(a)', 'a * 1', '12345678901234567890', '"ab"', 'floor(a)', 'abs(int(b))'])
+            steps = [f'{c}[{kk}] = {v0}']
+            for _ in range(r.randint(1, 5)):
+                steps.append(r.choice([f'{c}[{kk}] *= {c}[{kk}]', f'{c}[{kk}] *= b', f'{c}[{kk}] = {c}[{kk}] ** 2', f'{c}[{kk}] += a', f'{c}[{kk}] *= 3',
+                                       f'x = {c}[{kk}]; x *= x; {c}[{kk}] = x', f'{c}[{kk}] = {c}[{kk}] * {c}[{kk}]', f'{c}[{kk}] -= n']))
+            src = init + '; ' + '; '.join(steps) + f'; {c}'
+        elif k == 12:
+            src = r.choice(['round(a, 30)', 'round(a / 3, 40)', 'round(1, 5000)', 'round(a, 0 - 30)', 'round(1 / 3, 29)', 'round(a, 28)', 'floor(a * 10 ** 20)',
+                            'ceil(a / 7)', 'int(a) * int(b)', 'abs(a * b)', 'max(a * b, b)', 'min([a * a, b])', 'sum([a, b, n])', 'sum([a * b, a * b])',
+                            'round(a * b, 10)', 'round(a / b, 35)', 'float(a) * 3', 'int(a / 3)', 'round(n / 7, 50)', 'abs(a) ** 3'])
+        elif k <= 4:
             src = num_expr(r)
         elif k == 5:
             src = f'{num_expr(r)} {r.choice(["==", "!=", "<", ">", "<=", ">="])} {num_expr(r)}'
